@@ -68,7 +68,7 @@ func ruleClampSymmetry(r *Run) {
 			ast.Inspect(as.Rhs[0], func(m ast.Node) bool {
 				if c, ok := m.(*ast.CallExpr); ok {
 					if f, ok := calleeObj(info, c).(*types.Func); ok && f.FullName() == "math.Min" && len(c.Args) == 2 {
-						if strings.Contains(types.ExprString(c.Args[1]), "len(") || strings.Contains(types.ExprString(c.Args[0]), "len(") {
+						if r.mentionsLen(fn, c.Args[1]) || r.mentionsLen(fn, c.Args[0]) {
 							minCall = c
 						}
 					}
@@ -80,7 +80,7 @@ func ruleClampSymmetry(r *Run) {
 			}
 			var srcObj types.Object
 			for _, a := range minCall.Args {
-				if strings.Contains(types.ExprString(a), "len(") {
+				if r.mentionsLen(fn, a) {
 					continue
 				}
 				ast.Inspect(a, func(m ast.Node) bool {
@@ -255,4 +255,211 @@ func ruleTaintAlloc(r *Run) {
 		}
 	}
 	r.Check("G4", "examined", true, 0, "allocation sizes derived from float-to-int conversions examined in the modules (%d unbounded)", n)
+}
+
+// mentionsLen: the expression contains len(…), directly or through a helper whose whole body returns an
+// expression with len(…) (rowCount(), colCount()).
+func (r *Run) mentionsLen(fn *Func, x ast.Expr) bool {
+	if strings.Contains(types.ExprString(x), "len(") {
+		return true
+	}
+	found := false
+	ast.Inspect(x, func(n ast.Node) bool {
+		c, ok := n.(*ast.CallExpr)
+		if !ok || found {
+			return !found
+		}
+		if f, ok := calleeObj(fn.Info(), c).(*types.Func); ok && r.P.isGlue(f) {
+			if def := r.P.Funcs[f]; def != nil && len(def.Body.List) == 1 {
+				if rs, ok := def.Body.List[0].(*ast.ReturnStmt); ok && len(rs.Results) == 1 && strings.Contains(types.ExprString(rs.Results[0]), "len(") {
+					found = true
+				}
+			}
+		}
+		return true
+	})
+	return found
+}
+
+// ruleGridAxes (G3b): a cell index is bounded by the count of its own axis. In every dagaz function the
+// variables used as first index of Grid[a][b] are row indices and those used as second index are column
+// indices; a comparison (or math.Min clamp) of such a variable with a count must use len(Grid) for a row
+// index and len(Grid[k]) for a column index — directly, through a local that holds the count, through a
+// helper that returns it (rowCount()), or through a helper that is handed the index and compares it
+// (hasCell(x, y)). Only the pairing is checked, not the arithmetic.
+func ruleGridAxes(r *Run) {
+	if r.broken() {
+		return
+	}
+	isGridSel := func(x ast.Expr) bool {
+		se, ok := ast.Unparen(x).(*ast.SelectorExpr)
+		return ok && se.Sel.Name == "Grid"
+	}
+	// countKind: "row" for len(X.Grid), "col" for len(X.Grid[k]); through helpers and single-assignment locals
+	var countKind func(fn *Func, x ast.Expr, depth int) string
+	countKind = func(fn *Func, x ast.Expr, depth int) string {
+		if depth > 3 {
+			return ""
+		}
+		kind := ""
+		ast.Inspect(x, func(n ast.Node) bool {
+			if kind != "" {
+				return false
+			}
+			switch v := n.(type) {
+			case *ast.CallExpr:
+				if b, ok := calleeObj(fn.Info(), v).(*types.Builtin); ok && b.Name() == "len" && len(v.Args) == 1 {
+					a := ast.Unparen(v.Args[0])
+					if isGridSel(a) {
+						kind = "row"
+					} else if ix, ok := a.(*ast.IndexExpr); ok && isGridSel(ix.X) {
+						kind = "col"
+					}
+					return false
+				}
+				if f, ok := calleeObj(fn.Info(), v).(*types.Func); ok && r.P.isGlue(f) {
+					if def := r.P.Funcs[f]; def != nil && len(def.Body.List) == 1 {
+						if rs, ok := def.Body.List[0].(*ast.ReturnStmt); ok && len(rs.Results) == 1 {
+							kind = countKind(def, rs.Results[0], depth+1)
+						}
+					}
+					return false
+				}
+			case *ast.Ident:
+				if obj, ok := fn.Info().Uses[v].(*types.Var); ok && !obj.IsField() {
+					if ds, ok := fn.Defs().singleDef(obj); ok && ds.kind == "assign" && !ds.multi && ds.rhs != nil {
+						kind = countKind(fn, ds.rhs, depth+1)
+					}
+				}
+			}
+			return true
+		})
+		return kind
+	}
+	indexVar := func(fn *Func, x ast.Expr) *types.Var {
+		// the variable under conversions: uint(v), (float64)(v)
+		for {
+			x = ast.Unparen(x)
+			if c, ok := x.(*ast.CallExpr); ok && len(c.Args) == 1 {
+				if tv, ok := fn.Info().Types[c.Fun]; ok && tv.IsType() {
+					x = c.Args[0]
+					continue
+				}
+			}
+			break
+		}
+		if id, ok := x.(*ast.Ident); ok {
+			if v, ok := fn.Info().Uses[id].(*types.Var); ok && !v.IsField() {
+				return v
+			}
+		}
+		return nil
+	}
+	// per function: what each variable is compared with
+	type bound struct {
+		v    *types.Var
+		kind string
+		pos  token.Pos
+	}
+	boundsOf := func(fn *Func) []bound {
+		var out []bound
+		ast.Inspect(fn.Body, func(n ast.Node) bool {
+			switch v := n.(type) {
+			case *ast.BinaryExpr:
+				switch v.Op {
+				case token.LSS, token.LEQ, token.GTR, token.GEQ, token.EQL, token.NEQ:
+					for _, pair := range [][2]ast.Expr{{v.X, v.Y}, {v.Y, v.X}} {
+						if iv := indexVar(fn, pair[0]); iv != nil {
+							if k := countKind(fn, pair[1], 0); k != "" && countKind(fn, pair[0], 0) == "" {
+								out = append(out, bound{iv, k, v.Pos()})
+							}
+						}
+					}
+				}
+			case *ast.CallExpr:
+				if f, ok := calleeObj(fn.Info(), v).(*types.Func); ok && f.FullName() == "math.Min" && len(v.Args) == 2 {
+					for _, pair := range [][2]ast.Expr{{v.Args[0], v.Args[1]}, {v.Args[1], v.Args[0]}} {
+						if iv := indexVar(fn, pair[0]); iv != nil {
+							if k := countKind(fn, pair[1], 0); k != "" && countKind(fn, pair[0], 0) == "" {
+								out = append(out, bound{iv, k, v.Pos()})
+							}
+						}
+					}
+				}
+			}
+			return true
+		})
+		return out
+	}
+	n := 0
+	for _, fn := range r.P.All {
+		if fn.Pkg.PkgPath != pkgDagaz {
+			continue
+		}
+		info := fn.Info()
+		role := map[*types.Var]string{}
+		conflict := map[*types.Var]bool{}
+		setRole := func(x ast.Expr, k string) {
+			if v := indexVar(fn, x); v != nil {
+				if role[v] != "" && role[v] != k {
+					conflict[v] = true
+				}
+				role[v] = k
+			}
+		}
+		ast.Inspect(fn.Body, func(nd ast.Node) bool {
+			outer, ok := nd.(*ast.IndexExpr)
+			if !ok {
+				return true
+			}
+			inner, ok := ast.Unparen(outer.X).(*ast.IndexExpr)
+			if !ok || !isGridSel(inner.X) {
+				return true
+			}
+			setRole(inner.Index, "row")
+			setRole(outer.Index, "col")
+			return true
+		})
+		if len(role) == 0 {
+			continue
+		}
+		for _, b := range boundsOf(fn) {
+			if role[b.v] == "" || conflict[b.v] {
+				continue
+			}
+			n++
+			r.Check("G3b", fmt.Sprintf("%s:bound[%s]", fn.Name, b.v.Name()), role[b.v] == b.kind, b.pos,
+				"%s indexes the grid's %ss but is bounded by the %s count: in a non-square grid the test admits cells that do not exist and rejects cells that do", b.v.Name(), role[b.v], b.kind)
+		}
+		// indices handed to a helper that bounds them
+		ast.Inspect(fn.Body, func(nd ast.Node) bool {
+			call, ok := nd.(*ast.CallExpr)
+			if !ok {
+				return true
+			}
+			f, ok := calleeObj(info, call).(*types.Func)
+			if !ok || !r.P.isGlue(f) {
+				return true
+			}
+			def := r.P.Funcs[f]
+			if def == nil || def.Pkg.PkgPath != pkgDagaz {
+				return true
+			}
+			for _, hb := range boundsOf(def) {
+				k := paramIndex(def, hb.v)
+				if k < 0 || k >= len(call.Args) {
+					continue
+				}
+				av := indexVar(fn, call.Args[k])
+				if av == nil || role[av] == "" || conflict[av] {
+					continue
+				}
+				n++
+				r.Check("G3b", fmt.Sprintf("%s:bound[%s via %s]", fn.Name, av.Name(), shortFuncName(f)), role[av] == hb.kind, call.Pos(),
+					"%s indexes the grid's %ss but %s bounds its parameter %d by the %s count", av.Name(), role[av], shortFuncName(f), k, hb.kind)
+			}
+			return true
+		})
+	}
+	r.Floor("G3b", "index bounds paired with an axis", n, 4)
 }
